@@ -472,3 +472,170 @@ Section WithHash.
     | None => (serve_writeback c s k d now, SDownstream)
     end.
 End WithHash.
+
+(* ================================================================== *)
+(* Concurrency, part 1: the CompareAndSwap retry loop of FailureCache.record.
+
+   Several recorders of ONE key run against ONE slot.  The slot holds a
+   pointer; CompareAndSwap compares pointer identity, modelled as a stamp
+   that every store renews.  Atomic steps of a recorder (failure_cache.go,
+   func record):
+     load   : current, ok := c.loadEntry(hash)
+     decide : !ok || other key  -> entries.Add(hash, first)            (store)
+              now < retryAfter  -> return current                      (no write)
+              otherwise         -> CompareAndSwap(hash, current, next) (store iff the
+                                   slot still holds the pointer that was loaded;
+                                   else start over with a fresh load)
+   [now] is read once per call, before the loop. *)
+Inductive recorder :=
+| RcStart (now : Z)
+| RcLoaded (now : Z) (snap : option (N * entry))
+| RcDone (result : entry).
+Record cas_state := mk_cas { cs_slot : option (N * entry); cs_next : N; cs_writes : N; cs_threads : list recorder }.
+
+(* the entry a renewal of [cur] at [now] publishes (record's expired branch) *)
+Definition renew (c : cfg) (cur : entry) (prov : N) (now : Z) : entry :=
+  let s := if now - e_retry cur >=? c_max c then reset_streak
+           else if (e_streak cur <? streak_saturation)%N then (e_streak cur + 1)%N
+           else e_streak cur in
+  mk_entry (e_key cur) prov s (now + backoff c s).
+
+Fixpoint set_nth {A} (l : list A) (i : nat) (x : A) : list A :=
+  match l, i with
+  | [], _ => []
+  | _ :: r, O => x :: r
+  | y :: r, S i' => y :: set_nth r i' x
+  end.
+
+Definition cas_step (c : cfg) (key : ekey) (prov : N) (st : cas_state) (i : nat) : cas_state :=
+  match nth_error (cs_threads st) i with
+  | None => st
+  | Some (RcDone _) => st
+  | Some (RcStart now) =>
+      mk_cas (cs_slot st) (cs_next st) (cs_writes st) (set_nth (cs_threads st) i (RcLoaded now (cs_slot st)))
+  | Some (RcLoaded now snap) =>
+      let first := mk_entry key prov first_streak (now + c_init c) in
+      let store e := mk_cas (Some (cs_next st, e)) (cs_next st + 1)%N (cs_writes st + 1)%N
+                            (set_nth (cs_threads st) i (RcDone e)) in
+      match snap with
+      | None => store first
+      | Some (stamp, cur) =>
+          if negb (same_key (e_key cur) key) then store first
+          else if now <? e_retry cur then
+            mk_cas (cs_slot st) (cs_next st) (cs_writes st) (set_nth (cs_threads st) i (RcDone cur))
+          else
+            match cs_slot st with
+            | Some (stamp', _) =>
+                if (stamp' =? stamp)%N then store (renew c cur prov now)
+                else mk_cas (cs_slot st) (cs_next st) (cs_writes st) (set_nth (cs_threads st) i (RcStart now))
+            | None => mk_cas (cs_slot st) (cs_next st) (cs_writes st) (set_nth (cs_threads st) i (RcStart now))
+            end
+      end
+  end.
+Definition cas_run (c : cfg) (key : ekey) (prov : N) (st : cas_state) (schedule : list nat) : cas_state :=
+  fold_left (cas_step c key prov) schedule st.
+Definition rc_done (r : recorder) : bool := match r with RcDone _ => true | _ => false end.
+
+(* ================================================================== *)
+(* Concurrency, part 2: electing the probe.  internal/waitgroup
+   (JoinGeneration / Regroup / DoneGeneration, each one critical section under
+   the group mutex) as Cache.ServeDNS uses it for requests that share one
+   retry key.  The failure state those requests look at is abstracted to
+   what their LookupFailure / FailureRetryKey see:
+     FExpired : retained but expired state (a retry key exists)
+     FActive  : an active covering failure (served from the cache)
+     FCleared : no retained state (an ordinary miss)
+   A leader is "in flight" from its election until DoneGeneration. *)
+Inductive fstate := FExpired | FActive | FCleared.
+Inductive outcome :=
+| OCovering      (* the probe failed and the failure that covers the cohort was recorded again *)
+| ONothing       (* request-local failure, or a record that does not cover the others *)
+| OCleared.      (* useful answer: resetMatchingFailures *)
+Inductive preq :=
+| PStart
+| PLeader (gen : N)                       (* downstream, in flight *)
+| PFollower (gen : N) (regroups : Z)      (* waiting on generation.Done() *)
+| PServed                                 (* answered from the failure cache *)
+| PShed                                   (* writeFailureProbeLimit *)
+| POrdinary                               (* no failure state left: ordinary miss path *)
+| PFinished.                              (* leader returned *)
+(* generation: done?, the linked next generation (Generation.next) *)
+Record pgen := mk_pgen { g_done : bool; g_next : option N }.
+Record pstate := mk_pstate {
+  ps_fs : fstate;
+  ps_group : option N;                    (* wg.groups[key] *)
+  ps_gens : list pgen;                    (* generation id = position *)
+  ps_reqs : list preq;
+  ps_elected : Z }.                       (* leaders elected so far = probes sent *)
+Inductive pact :=
+| AArrive (r : nat)                       (* lookup + retry key + JoinGeneration *)
+| AFinish (r : nat) (o : outcome)         (* the leader's write-back + DoneGeneration *)
+| AWake (r : nat).                        (* a follower whose generation is done: re-check, maybe Regroup *)
+
+Definition gen_of (st : pstate) (g : N) : pgen := nth (N.to_nat g) (ps_gens st) (mk_pgen true None).
+Definition new_gen_id (st : pstate) : N := N.of_nat (length (ps_gens st)).
+
+Definition probe_step (st : pstate) (a : pact) : pstate :=
+  let set r x := set_nth (ps_reqs st) r x in
+  match a with
+  | AArrive r =>
+      match nth_error (ps_reqs st) r with
+      | Some PStart =>
+          match ps_fs st with
+          | FActive => mk_pstate (ps_fs st) (ps_group st) (ps_gens st) (set r PServed) (ps_elected st)
+          | FCleared => mk_pstate (ps_fs st) (ps_group st) (ps_gens st) (set r POrdinary) (ps_elected st)
+          | FExpired =>
+              match ps_group st with
+              | Some g => mk_pstate (ps_fs st) (ps_group st) (ps_gens st) (set r (PFollower g 0)) (ps_elected st)
+              | None =>
+                  let g := new_gen_id st in
+                  mk_pstate (ps_fs st) (Some g) (ps_gens st ++ [mk_pgen false None]) (set r (PLeader g)) (ps_elected st + 1)
+              end
+          end
+      | _ => st
+      end
+  | AFinish r o =>
+      match nth_error (ps_reqs st) r with
+      | Some (PLeader g) =>
+          let fs := match o with OCovering => FActive | ONothing => ps_fs st | OCleared => FCleared end in
+          let gens := set_nth (ps_gens st) (N.to_nat g) (mk_pgen true (g_next (gen_of st g))) in
+          let group := match ps_group st with Some g' => if (g' =? g)%N then None else Some g' | None => None end in
+          mk_pstate fs group gens (set r PFinished) (ps_elected st)
+      | _ => st
+      end
+  | AWake r =>
+      match nth_error (ps_reqs st) r with
+      | Some (PFollower g regs) =>
+          if negb (g_done (gen_of st g)) then st else
+          match ps_fs st with
+          | FActive => mk_pstate (ps_fs st) (ps_group st) (ps_gens st) (set r PServed) (ps_elected st)
+          | FCleared => mk_pstate (ps_fs st) (ps_group st) (ps_gens st) (set r POrdinary) (ps_elected st)
+          | FExpired =>
+              if regs >=? max_probe_regroups then
+                mk_pstate (ps_fs st) (ps_group st) (ps_gens st) (set r PShed) (ps_elected st)
+              else
+                (* Regroup(key, previous) *)
+                match g_next (gen_of st g) with
+                | Some nx => mk_pstate (ps_fs st) (ps_group st) (ps_gens st) (set r (PFollower nx (regs + 1))) (ps_elected st)
+                | None =>
+                    match ps_group st with
+                    | Some cur =>
+                        if (cur =? g)%N then st     (* an unfinished previous generation: not reachable here (it is done) *)
+                        else mk_pstate (ps_fs st) (ps_group st)
+                               (set_nth (ps_gens st) (N.to_nat g) (mk_pgen true (Some cur)))
+                               (set r (PFollower cur (regs + 1))) (ps_elected st)
+                    | None =>
+                        let n := new_gen_id st in
+                        mk_pstate (ps_fs st) (Some n)
+                          (set_nth (ps_gens st) (N.to_nat g) (mk_pgen true (Some n)) ++ [mk_pgen false None])
+                          (set r (PLeader n)) (ps_elected st + 1)
+                    end
+                end
+          end
+      | _ => st
+      end
+  end.
+Definition probe_run (st : pstate) (sched : list pact) : pstate := fold_left probe_step sched st.
+Definition in_flight (st : pstate) : nat :=
+  length (filter (fun q => match q with PLeader _ => true | _ => false end) (ps_reqs st)).
+Definition probe_init (n : nat) : pstate := mk_pstate FExpired None [] (repeat PStart n) 0.
